@@ -222,6 +222,12 @@ type Residue struct {
 
 func (m *Residue) AfterOp(w *mc.World, ev *mc.Event) {}
 func (m *Residue) AfterCall(w *mc.World, p *mc.Proc, call int, res string) {
+	if call < len(p.Prog) && strings.HasPrefix(res, "PANIC") {
+		if k := callKind(p.Prog[call].Label); k == "clean" || k == "close" {
+			w.Violate(m.Prop, "residue:gc-call-panics@"+k, fmt.Sprintf("p%d: %s panicked: %s", p.ID, k, res))
+			return
+		}
+	}
 	if m.Holding != nil && m.Holding(p) {
 		return
 	}
